@@ -66,8 +66,10 @@ def make_schema():
     return schema
 
 
-def build_world_schema():
-    """Schema built in code so that the enum has internal values and the scalar a custom serialiser."""
+def build_world_schema(deferred=None):
+    """Schema built in code so that the enum has internal values and the scalar a custom serialiser.
+    deferred = "async": every resolver is a coroutine function that yields to the event loop a request-specific number of times
+    (ctx["delays"]: seeded per request), so that sibling / list-item resolvers finish in varying orders."""
     from py_gql.exc import ResolverError
     from py_gql.schema import (EnumType, EnumValue, Field, Int, InterfaceType, ListType, NonNullType, ObjectType, ScalarType,
                                Schema, String, UnionType)
@@ -101,6 +103,15 @@ def build_world_schema():
                 return [{"__t": "Obj", "__typename__": "Obj"}, None]
             if name == "is":
                 return [{"__t": "Obj", "__typename__": "Obj"}, {"__t": "Obj2", "__typename__": "Obj2"}, {"__t": "Obj", "__typename__": "Obj"}]
+        if deferred == "async":
+            import asyncio
+
+            async def ar(root, ctx, info):
+                d = ctx.get("delays")
+                for _ in range(d.randrange(0, 4) if d is not None else 0):
+                    await asyncio.sleep(0)
+                return r(root, ctx, info)
+            return ar
         return r
     I = InterfaceType("I", lambda: [Field("a", Int), Field("o", reg["Obj"])])
     reg["Obj"] = ObjectType("Obj", lambda: [Field("a", Int, resolver=res("a")), Field("s", NonNullType(String), resolver=res("s")),
@@ -210,6 +221,88 @@ def _worker(args):
                 if schema_kind == "fresh" and exe == "generic" and idx % 7 == 0:
                     cases.append(respjudge.project(q, "executed", lambda: res, null_paths=[list(p) for p in xerrs]))
     return out, n, cases
+
+
+def render_query(b):
+    sel, w = b["sel"], b["world"]
+    var = "($v: Boolean!)" if uses_v(sel) else ""
+    q = "query%s { %s }" % (var, render(sel))
+    for fr, text in (("FObj", "fragment FObj on Obj { a ks: s }"), ("FI", "fragment FI on I { a }"),
+                     ("FIo", "fragment FIo on I { o { a } }"), ("FOo", "fragment FOo on Obj { o { ks: s e } }"), ("FO2o", "fragment FO2o on Obj2 { o { e ka: a } }")):
+        if uses_frag(sel, fr):
+            q += "\n" + text
+    return q, ({"v": w["v"]} if var else None)
+
+
+def deferred_worker(args):
+    """C08: GqlExec documents (lists of objects, abstract types, merged sub-selections) on the real deferring runtimes; the final
+    result must equal the schedule-independent reference whatever order the resolvers finish in."""
+    behs, seed = args
+    import asyncio
+    from py_gql import process_graphql_query
+    from py_gql.execution.runtime import AsyncIORuntime, ThreadPoolRuntime
+    rng = random.Random(seed)
+    out = {}
+    n = 0
+    aschema = build_world_schema("async")
+    pschema = build_world_schema()
+    loop = asyncio.new_event_loop()
+    pool = ThreadPoolRuntime(max_workers=3)
+    hangs = 0
+    try:
+        for b in behs:
+            q, variables = render_query(b)
+            xdata = conv_data(b["r"]["data"])
+            xerrs = sorted((tuple(p) for p in b["r"]["errs"]), key=repr)
+            for which in ("asyncio", "pool"):
+                n += 1
+                wit = {"query": q, "variables": variables, "world": b["world"], "runtime": which}
+                try:
+                    if which == "asyncio":
+                        rt = AsyncIORuntime(loop=loop)
+                        ctx = {"world": b["world"], "delays": random.Random(rng.random())}
+
+                        async def main():
+                            return await process_graphql_query(aschema, q, variables=variables, context=ctx, runtime=rt)
+                        res = loop.run_until_complete(asyncio.wait_for(main(), 20))
+                    else:
+                        res = process_graphql_query(pschema, q, variables=variables, context={"world": b["world"]}, runtime=pool).result(timeout=20)
+                except Exception as e:
+                    out.setdefault("rich-%s/raises/%s" % (which, type(e).__name__), ["execution on the real runtime raises or hangs", dict(wit, error=repr(e))])
+                    hangs += isinstance(e, (asyncio.TimeoutError, TimeoutError)) or "Timeout" in type(e).__name__
+                    if hangs >= 2:
+                        return out, n       # a hanging runtime would cost 20 s per document
+                    if which == "asyncio":  # the loop may hold abandoned tasks
+                        loop.close()
+                        loop = asyncio.new_event_loop()
+                    continue
+                data = plain(res.data)
+                errs = sorted((tuple(e.path) if getattr(e, "path", None) else ("?",) for e in res.errors), key=repr)
+                if data != xdata:
+                    out.setdefault("rich-%s/data/%s" % (which, shape_key(b["sel"])), ["result on the real runtime differs from the schedule-independent reference", dict(wit, expected=xdata, got=data)])
+                if errs != xerrs:
+                    out.setdefault("rich-%s/errors/%s" % (which, shape_key(b["sel"])), ["error paths on the real runtime differ from the reference", dict(wit, expected=xerrs, got=errs)])
+    finally:
+        loop.close()
+        pool._inner.shutdown()
+    return out, n
+
+
+def deferred_shards(shards):
+    merged, n = {}, 0
+    for a in shards:
+        out, k = deferred_worker(a)
+        n += k
+        for key, v in out.items():
+            merged.setdefault(key, v)
+    return merged, n
+
+
+def rich_behaviours(chk):
+    behs = generate(chk, 2)
+    for t in range(1, NTEMPLATES + 1):
+        behs += generate(chk, 1, template=t)
+    return behs
 
 
 def _shards(shards):
